@@ -114,7 +114,13 @@ func (e *env) ticketCase(c Case) {
 	tickets := map[string]*issued{} // by ticket hex
 	var trace []string
 	presented, expiredSeen := 0, 0
+	// once model and implementation disagree the correspondence part of this history is over
+	// (one violation is recorded); the property oracle goes on to the end of the history
+	diverged := false
 	checkStore := func(where string) bool {
+		if diverged {
+			return true
+		}
 		impl := dumpStr(cf)
 		model := e.call("st.dump")[1]
 		if model == "-" {
@@ -124,21 +130,25 @@ func (e *env) ticketCase(c Case) {
 		if impl != model {
 			e.r.Violate("model-impl-disagree-ticket-store", "correspondence",
 				fmt.Sprintf("history %v, after %s: in-memory ticket store differs from the model (impl %d entries, model %q…)", trace, where, strings.Count(impl, ",")+1, trunc(model, 60)), c)
-			return false
+			diverged = true
 		}
 		return true
 	}
 	checkFile := func(where string) bool {
+		if diverged {
+			return true
+		}
 		b, err := os.ReadFile(file)
 		if err != nil {
 			e.r.Violate("ticket-file-missing", "correspondence", fmt.Sprintf("history %v, after %s: %v", trace, where, err), c)
-			return false
+			diverged = true
+			return true
 		}
 		rep := e.call("st.file")
 		if rep[0] != "ok" || !bytes.Equal(vlib.UnHex(rep[1]), b) {
 			e.r.Violate("model-impl-disagree-ticket-file", "correspondence",
 				fmt.Sprintf("history %v, after %s: ticket file differs from the model's serialisation: %q", trace, where, trunc(string(b), 120)), c)
-			return false
+			diverged = true
 		}
 		return true
 	}
@@ -146,8 +156,9 @@ func (e *env) ticketCase(c Case) {
 		now := time.Now().Unix()
 		b, err := os.ReadFile(file)
 		if err == nil {
-			if rep := e.call("st.load %s %d", vlib.Hex(b), now); rep[0] != "ok" {
-				must(fmt.Errorf("model cannot read the ticket file %q", trunc(string(b), 200)))
+			if rep := e.call("st.load %s %d", vlib.Hex(b), now); rep[0] != "ok" && !diverged {
+				e.r.Violate("model-cannot-read-ticket-file", "correspondence", fmt.Sprintf("history %v: the ticket file is not of the shape serialize() writes: %q", trace, trunc(string(b), 200)), c)
+				diverged = true
 			}
 		} else {
 			e.call("st.reset")
@@ -268,11 +279,10 @@ func (e *env) ticketCase(c Case) {
 				if !bytes.Equal(vlib.UnHex(mf[1]), flight) {
 					e.r.Violate("model-impl-disagree-ticket-flight", "correspondence", "ticket flight differs from the model's", c)
 				}
-				if model[0] != "ticket" || model[2] != tk {
+				if !diverged && (model[0] != "ticket" || model[2] != tk) {
 					e.r.Violate("model-impl-disagree-flight-kind", "correspondence",
 						fmt.Sprintf("history %v: client presented a ticket, model says %s", trace, model[0]), c)
-					s.close()
-					return
+					diverged = true
 				}
 				e.call("sess.new %s %s", id, vlib.Hex(t.master))
 				e.r.Count("flight", "ticket")
@@ -290,11 +300,10 @@ func (e *env) ticketCase(c Case) {
 				} else {
 					e.r.Count("fallback", "valid-ticket-not-used")
 				}
-				if model[0] != "dh" {
+				if !diverged && model[0] != "dh" {
 					e.r.Violate("model-impl-disagree-flight-kind", "correspondence",
 						fmt.Sprintf("history %v: client sent a UniformDH flight, model says %s", trace, model[0]), c)
-					s.close()
-					return
+					diverged = true
 				}
 				e.call("sess.new %s %s", id, vlib.Hex(e.dhSeed))
 				e.r.Count("flight", "uniformdh")
